@@ -3,6 +3,11 @@ one index.rst per processed directory, nothing else); each page equals the
 single-file rendering apart from title and module name.
 
 Also hosts the world generator and runner shared with C14 and C18.
+
+Replay spec (shared with C14): {"files", "proj", "out", "out_kind", "patterns", "recursive", "auto_exclude", "prefix", "rst",
+ "single": bool, "variants": [{"cwd", "input", "output", "listing_key", "listing_explicit", "prefix_src",
+                               "faults": [{"seam", "errno", "nth"|"path", "how"?, "persist"?}]}]}
+Variant 0 is the fault-free reference run; later variants may carry faults.
 """
 import os
 import posixpath
